@@ -701,9 +701,8 @@ class CWorld:
             self.kept_node = None
 
     def held_keys_check(self, p, op):
-        """keys()/len()/in of a held metadata interface agree with what is attached."""
-        if not op.get("held"):
-            return
+        """keys()/len()/in of a held metadata interface agree with what is attached (also
+        after an operation that went through another, fresh interface to the same node)."""
         want = sorted(self.meta.get(p, {}))
         for dv in self.drv:
             h = self.held.get(dv.kind)
@@ -879,8 +878,8 @@ class CWorld:
         env.settle()
         self.steps += 1
         k = op["op"]
-        if not (k in ("meta_set", "meta_del", "meta_get") and op.get("held")):
-            self.held.clear()  # handles are only kept over consecutive metadata operations
+        if k not in ("meta_set", "meta_del", "meta_get"):
+            self.held.clear()  # handles are only kept over consecutive metadata operations (held or fresh)
         if k in OWNER_DATA_OPS:
             out = self.op_data(op)
         elif k == "meta_set":
@@ -1205,20 +1204,25 @@ class ContainerEngine:
                     ops.append(km)
                     continue
                 if g.random() < 0.3:
-                    # a burst of metadata operations through one kept node.meta handle
-                    op["held"] = True
+                    # a burst of metadata operations at one node, some through a node.meta
+                    # handle that is kept (and may have been taken before the others happen),
+                    # some through fresh ones
+                    if g.random() < 0.5:
+                        ops.append({"op": "meta_get", "path": op["path"], "schema": g.choice(VS.QUERY_NAMES), "version": g.choice(VS.QUERY_VERSIONS), "held": True})
+                    op["held"] = g.random() < 0.5
                     ops.append(op)
                     for _ in range(g.randint(1, 3)):
                         c = g.random()
                         counter[0] += 1
+                        hd = g.random() < 0.6
                         if c < 0.45:  # attach the same schema again (must be refused)
-                            ops.append({**op, "idx": counter[0], "as": g.choice(["dict", "obj", "json"])})
+                            ops.append({**op, "idx": counter[0], "as": g.choice(["dict", "obj", "json"]), "held": hd})
                         elif c < 0.65 and fresh_attach:
-                            ops.append({"op": "meta_del", "path": op["path"], "schema": op["schema"], "held": True})
+                            ops.append({"op": "meta_del", "path": op["path"], "schema": op["schema"], "held": hd})
                             ms.rm(op["path"], op["schema"])
                             fresh_attach = False
                         else:
-                            ops.append({"op": "meta_get", "path": op["path"], "schema": g.choice(VS.QUERY_NAMES), "version": g.choice(VS.QUERY_VERSIONS), "held": True})
+                            ops.append({"op": "meta_get", "path": op["path"], "schema": g.choice(VS.QUERY_NAMES), "version": g.choice(VS.QUERY_VERSIONS), "held": hd})
                     continue
                 ops.append(op)
             elif k == "meta_del":
